@@ -17,6 +17,7 @@ type C04Payload struct {
 	Plan      *Plan              `json:"plan,omitempty"`
 	Fault     *ArgFault          `json:"fault,omitempty"`
 	Argv      []BStr             `json:"argv,omitempty"`
+	Argv0     []BStr             `json:"argv0,omitempty"` // adversarial mode: an earlier ParseArgs on the same parser
 	Fd1Faults []simrt.WriteFault `json:"fd1_faults,omitempty"`
 	Fd2Faults []simrt.WriteFault `json:"fd2_faults,omitempty"`
 	EmptyComp bool               `json:"empty_completion_env,omitempty"` // GO_FLAGS_COMPLETION="" must behave like unset
@@ -119,6 +120,9 @@ func (propC04) Gen(r *Rng, idx int, tier string) *Scenario {
 		oddify(r.Fork("odd"), sc.Decl)
 		ar := r.Fork("argv")
 		p.Argv = bstrs(genArgvAdversarial(ar, sc.Decl, ar.Range(0, 8)))
+		if ar.Chance(1, 4) {
+			p.Argv0 = bstrs(genArgvAdversarial(ar, sc.Decl, ar.Range(0, 6)))
+		}
 		// some environment defaults, convertible or not
 		for _, oi := range optInfos(sc.Decl) {
 			if oi.O.Env != "" && ar.Chance(1, 3) {
@@ -171,6 +175,9 @@ func c04Run(sc *Scenario, argv []string, callee []CalleeFault, env map[string]st
 		op.Fd1Faults, op.Fd2Faults = sc.C04.Fd1Faults, sc.C04.Fd2Faults
 	}
 	s2.Ops = []Op{op}
+	if sc.C04 != nil && sc.C04.Mode == "adversarial" && sc.C04.Argv0 != nil {
+		s2.Ops = []Op{{Kind: "parse", Argv: sc.C04.Argv0}, op}
+	}
 	return Execute(&s2, nil)
 }
 
@@ -311,6 +318,17 @@ func (propC04) Judge(sc *Scenario) *Verdict {
 	}
 	r := lastOp(o)
 	label := "ParseArgs"
+	if len(o.Ops) == 2 {
+		label = "second ParseArgs on the same parser"
+		if ab := abnormal(&o.Ops[0]); ab != "" {
+			kind := strings.SplitN(ab, ":", 2)[0]
+			v.failAttr("C04", "c04:abnormal:"+kind, fmt.Sprintf("ParseArgs did not return normally: %s\nargv=%q options=%#x", ab, strs(p.Argv0), d.Options), map[string]string{"abnormal": ab})
+			return finish("abnormal:" + kind)
+		}
+		if o.Ops[0].Exit || o.Ops[0].Crash {
+			return finish("first-died")
+		}
+	}
 	// 1. returns normally
 	if ab := abnormal(r); ab != "" {
 		kind := strings.SplitN(ab, ":", 2)[0]
@@ -413,6 +431,19 @@ func (propC04) Reductions(sc *Scenario) []func(*Scenario) bool {
 	}
 	if p.EmptyComp {
 		out = append(out, func(s *Scenario) bool { s.C04.EmptyComp = false; return true })
+	}
+	if p.Argv0 != nil {
+		out = append(out, func(s *Scenario) bool { s.C04.Argv0 = nil; return true })
+		for i := range p.Argv0 {
+			i := i
+			out = append(out, func(s *Scenario) bool {
+				if i >= len(s.C04.Argv0) {
+					return false
+				}
+				s.C04.Argv0 = append(s.C04.Argv0[:i:i], s.C04.Argv0[i+1:]...)
+				return true
+			})
+		}
 	}
 	for i := range p.Argv {
 		i := i
